@@ -26,6 +26,13 @@
 //! time and peak heap of the decoding step and of decode + sweep must obey
 //! a scaling law between consecutive sizes.
 //!
+//! Iterators of decoded values are also used through the standard iterator
+//! adapters (c04_iter.rs): inside the accessor sweep of every accepted value
+//! (a fixed plan of adapter programs, each result compared with plain `next()`
+//! stepping) and by a workload of its own (generated values at the ends of the
+//! number spaces under random programs, a few walks over all 2^32 members of
+//! the whole AS number space).
+//!
 //! Literal cases (`vcheck C04 --case f`): `{"ep": name, "hex": bytes}`
 //! (optionally `"isolate": true` to run it in a child), a libFuzzer artifact
 //! `{"fuzz_target": "repo|ca|resources|text", "hex": bytes}`,
@@ -43,6 +50,8 @@ pub mod c04_eval;
 pub mod c04_mut;
 #[path = "c04_scale.rs"]
 pub mod c04_scale;
+#[path = "c04_iter.rs"]
+pub mod c04_iter;
 
 use self::c04_eval::{cpu_budget_ns, evaluate, heap_budget, Ep, Fixed, Opts, Outcome, ALL_EPS};
 use self::c04_mut::{self as m, Pools, T};
@@ -147,6 +156,17 @@ fn catch2<R>(f: impl FnOnce() -> R) -> Result<R, (String, Option<String>)> {
         Ok(v) => Ok(v),
         Err(_) => Err(PANIC.with(|p| p.borrow_mut().take()).unwrap_or_else(|| ("<panic without hook>".into(), None))),
     }
+}
+
+/// Violation signature of a captured panic: the panic site; a site inside std
+/// is named by the library frame that led there.
+fn panic_sig(text: &str, via: &Option<String>) -> String {
+    let site = match via {
+        Some(v) if v.starts_with("inlined-into ") || v.starts_with("fn ") => format!("std:{}", v.replace(' ', "_")),
+        Some(v) => format!("{}:std", panic_site(v.split(" (").next().unwrap_or(v))),
+        None => panic_site(text),
+    };
+    format!("C04:panic:{}", site)
 }
 
 /// `file:line` of a captured panic, keeping the crate directory for
@@ -935,6 +955,8 @@ struct Mon<'a> {
     spin_base: u64,
     crumb_every: u32,
     crumb: Crumb,
+    /// iterator adapter laws inside the accessor sweep (c04_iter.rs)
+    laws: c04_iter::Stats,
 }
 
 struct Case<'c> {
@@ -983,22 +1005,30 @@ impl Mon<'_> {
             Ok(o) => o,
             Err((text, via)) => {
                 self.panics += 1;
-                // a panic site inside std is named by the library frame that led there
-                let site = match &via {
-                    Some(v) if v.starts_with("inlined-into ") || v.starts_with("fn ") => format!("std:{}", v.replace(' ', "_")),
-                    Some(v) => format!("{}:std", panic_site(v.split(" (").next().unwrap_or(v))),
-                    None => panic_site(&text),
-                };
+                // the panic happened while an iterator of the value was used through an adapter?
+                let during = c04_iter::current();
+                c04_iter::clear_current();
                 ctx.violation(
-                    &format!("C04:panic:{}", site),
-                    &format!("panic in {} (decode or accessor sweep): {}{}", c.ep.name(), text,
+                    &panic_sig(&text, &via),
+                    &format!("panic in {} (decode or accessor sweep{}): {}{}", c.ep.name(),
+                             during.map(|(i, a)| format!("; iterator {} used through {}", i, a)).unwrap_or_default(), text,
                              via.as_ref().map(|v| format!(" [reached from {}]", v)).unwrap_or_default()),
-                    detail(c, json!({"panic": text, "innermost_library_frame": via})),
+                    detail(c, json!({"panic": text, "innermost_library_frame": via,
+                                     "during_iterator_adapter": during.map(|(i, a)| json!({"iterator": i, "adapter": a}))})),
                 );
                 self.after(ctx, c);
                 return None;
             }
         };
+        // iterators of the value under the standard adapters
+        self.laws.add(&out.laws);
+        for b in &out.law_breaks {
+            ctx.violation(
+                &format!("C04:iter-disagrees:{}:{}", b.iter, b.adapter),
+                &format!("{} of the value decoded by {}: {}", b.iter, c.ep.name(), b.text),
+                detail(c, json!({"iterator": b.iter, "adapter": b.adapter, "observed": b.text})),
+            );
+        }
         // resource budgets
         let hb = heap_budget(c.data.len());
         self.max_heap_permille = self.max_heap_permille.max(peak * 1000 / hb);
@@ -1112,6 +1142,7 @@ impl Mon<'_> {
     }
 
     fn measure(&self, c: &Case) -> (Result<Outcome, (String, Option<String>)>, u64, u64) {
+        c04_iter::clear_current();
         let base = window_start();
         let t0 = if self.miri { 0 } else { thread_cpu_ns() };
         EVAL_STARTED_AT.store(t0, std::sync::atomic::Ordering::Relaxed);
@@ -1156,6 +1187,10 @@ impl Mon<'_> {
         ctx.obs("panics_caught", self.panics);
         ctx.obs("h1_noncanonical_chains_seen(observation_only)", self.h1_bad);
         ctx.obs_max("heap_peak_permille_of_budget", self.max_heap_permille);
+        for (k, v) in self.laws.pairs() {
+            ctx.obs(k, v);
+        }
+        self.laws = Default::default();
         if self.native {
             ctx.obs_max("cpu_permille_of_budget", self.max_cpu_permille);
             ctx.obs("evaluations_over_10pct_of_cpu_budget", self.slow);
@@ -1447,6 +1482,7 @@ pub fn run(ctx: &mut Ctx) {
         spin_base: if native { calibrate() } else { 1 },
         crumb_every: 1,
         crumb: Crumb::new(ctx),
+        laws: Default::default(),
     };
 
     // ---- literal cases (replay, child batches, fuzz artifacts)
@@ -1648,6 +1684,13 @@ pub fn run(ctx: &mut Ctx) {
     // ---- 3b. generated RFC 3779 values at the ends of the number spaces
     run_generated_resources(ctx, &mut mon, &seeds, signer.as_ref());
     mon.flush(ctx);
+
+    // ---- 3b'. iterators of decoded values under the standard adapters
+    c04_iter::run_iter_laws(ctx, &mut mon, &seeds, signer.as_ref());
+    mon.flush(ctx);
+    if std::env::var_os("C04_ITER_ONLY").is_some() {
+        return; // experiments only; never set by the driver
+    }
 
     // ---- 3c. every list-like structure at n and 4n (16n) entries: scaling laws
     if crypto {
@@ -2154,6 +2197,8 @@ fn run_miri(ctx: &mut Ctx, mon: &mut Mon) {
         mon.eval(ctx, &Case { ep, data: &data, mutator: &label, seed: "generated" });
     }
     ctx.obs("generated_resource_values", generated);
+    // iterators of decoded values under the standard adapters: a handful of small values
+    c04_iter::run_iter_laws(ctx, mon, &[], None);
 }
 
 //------------ literal cases --------------------------------------------------
@@ -2230,6 +2275,11 @@ fn run_case(ctx: &mut Ctx, mon: &mut Mon, case: &Value) {
     if let Some(dir) = case["write_corpus"].as_str() {
         let crypto = mon.opts.crypto;
         write_corpus(ctx, dir, crypto, mon.opts.fixed);
+        return;
+    }
+    // a value whose iterators were put under adapter programs
+    if case["iterlaws"].is_string() {
+        c04_iter::run_iterlaws_case(ctx, mon, case);
         return;
     }
     // a scaling case: regenerate the shape at n and factor*n entries and measure again
